@@ -133,6 +133,24 @@ Theorem gen_divRoundUp_size_t_is_model : forall a b, 0 < b -> divRoundUp__ul_ul 
 Proof. exact gen_divRoundUp_u64. Qed.
 Print Assumptions gen_divRoundUp_size_t_is_model.
 
+(* narrow instantiations (T narrower than int): operands promoted to int, ONE narrowing at the return -- the position of
+   the cast back to T is part of the regenerated text *)
+Theorem gen_divRoundUp_uint8_is_model : forall a b, 0 <= a < 256 -> 0 < b < 256 ->
+  divRoundUp__uc_uc MZ a b = divRoundUp_n false 8 a b.
+Proof. exact gen_divRoundUp_u8. Qed.
+Print Assumptions gen_divRoundUp_uint8_is_model.
+
+Theorem gen_divRoundUp_int16_is_model : forall a b, 0 <= a < 32768 -> 0 < b < 32768 ->
+  divRoundUp__s_s MZ a b = divRoundUp_n true 16 a b.
+Proof. exact gen_divRoundUp_i16. Qed.
+Print Assumptions gen_divRoundUp_int16_is_model.
+
+Theorem gen_divRoundUp_narrow_ideal_is_model : forall a b,
+  divRoundUp__c_c IZ a b = divRoundUp a b /\ divRoundUp__uc_uc IZ a b = divRoundUp a b /\
+  divRoundUp__s_s IZ a b = divRoundUp a b /\ divRoundUp__us_us IZ a b = divRoundUp a b.
+Proof. exact gen_divRoundUp_narrow_ideal. Qed.
+Print Assumptions gen_divRoundUp_narrow_ideal_is_model.
+
 Theorem gen_clamp_int_is_model : forall x lo hi, clamp__i_i_i IZ x lo hi = clampZ x lo hi.
 Proof. exact gen_clamp_int. Qed.
 Print Assumptions gen_clamp_int_is_model.
